@@ -621,6 +621,7 @@ func (p *Pipeline) finalize(event *Event, notifyInput bool, backEvent bool) {
 		return
 	}
 
+	verifTrace("pl.finalize", uint64(event.Offset), verifFinFlags(notifyInput, backEvent))
 	if notifyInput {
 		p.input.Commit(event)
 		p.outputEvents.Inc()
